@@ -168,3 +168,27 @@ for _id, (_t, _l) in ROUND4.items():
         if _t:
             t = t + " + " + _t
         CLAIMED[_id] = (t, text + _l, note, ref)
+
+# rules added after seed rounds 5 and 6 (DESIGN 10.10, 10.11)
+ROUND56 = {
+ "C01": ("commit rule for withdrawals, one-window rule for run literals", " R01.6: a retained match is withdrawn in favour of a better candidate only when that candidate is itself kept. R01.7: every run the run detector creates starts as one window. Shared R05.5: the weights of the containment branch come from the token spans of the two matches."),
+ "C02": ("verdict-provenance rule for scoreDiffs", " R02.5: scoreDiffs hands back the word distance it computed or a constant verdict, never an adjusted distance. Shared R04.4 (no map range left early with a non-constant result), R06.3."),
+ "C04": ("natural-loop exit rule for map ranges, constant-argument rule for the diff's line mode", " R04.4 also reports a loop over a map that is left before all entries were seen with anything but a constant verdict. R04.11: the diff library's line mode is off (token id 10 is a word, not a line end)."),
+ "C05": ("", " R05.1 follows the normalisation flag into helpers. R05.5: the overlap weights are computed from the token spans."),
+ "C06": ("no-length-guard rule for the spelling table, contiguity rule for the roman list markers read as a table", " R06.12: the spelling lookup is made for every word, whatever its length. R06.13: the roman numerals among the list markers run from i to their maximum without a hole (D46)."),
+ "C08": ("end-of-input consumption rule, reader-error provenance rule", " R08.4: the bytes carried over start where the rune loop stopped. R08.7: the only error returned is the reader's. R08.8: at the end of the input everything in the buffer is consumed."),
+ "C13": ("", " R13.9: the exact-occurrence scan runs for every known value that can occur in the text, also one as long as the text. R13.1 follows the quoting into helpers."),
+ "C14": ("no-copied-lock rule, arrival-order rule for goroutine-fed queues", " R14.9: no value that contains a mutex is passed or loaded by value. R14.10: the order function of a queue that goroutines push into separates equal confidences by name, and no loop over a map in the package is left early with anything but a constant verdict (D48). Shared R13.6."),
+ "C15": ("fail-or-archive rule for the archive writer, read-only rule for package-level state while archiving", " R15.10: a failing step of ArchiveLicenses ends the call with the error (nothing is logged and skipped). R15.11: package-level variables are only read while archiving. Shared R14.10 (D48), R13.1."),
+ "C16": ("guard rule for the exact-match shortcut (followed through a remembered pointer and helpers), list-identity rule for the scoring loop, suffix-constant rule for character-set trims", " R16.3: the scoring loop ranges over the list the pre-filter filled, uncut. R16.4: confidence 1.0 is reported only behind an equality of the two texts. R16.5: no strings.Trim* is given an extension-like constant."),
+ "C17": ("", " R17.7: the End stored into a token range lies inside the token list."),
+ "C18": ("nesting-counter rule on natural loops, effect summary of Parse, exhaustiveness of the comment-style switch over the language constants", " R18.13: comments that nest are counted to any depth. R18.14: Parse writes no package-level state and returns fresh memory. R18.15: every language ClassifyLanguage can return has comment delimiters (D47)."),
+ "C19": ("all-arguments rule for the walk, error-or-text rule for the text reader (defer-spilled returns resolved)", " R19.11: every command-line argument is walked. R19.12: the text of a classification is empty only together with an error."),
+ "C20": ("self-merge rule, element-comparison rule for ordering functions, nil-only replacement rule for a mutator's map", " R20.7: a merge loop never writes the set it ranges over. R20.8: an ordering function compares the two elements, not a difference that can wrap. R20.9: a mutator replaces the receiver's map only where it was found nil."),
+}
+for _id, (_t, _l) in ROUND56.items():
+    if _id in CLAIMED:
+        t, text, note, ref = CLAIMED[_id]
+        if _t:
+            t = t + " + " + _t
+        CLAIMED[_id] = (t, text + _l, note, ref)
